@@ -92,7 +92,8 @@ BadCases == <<
   Case("crash", Irred, No("KeyError"), <<>>, {"Outcome"})
 >>
 AllCases == GoodCases \o BadCases
-Next == NextOn(AllCases)
+PickCase == PickGuard /\ (\E k \in InChunk(Len(AllCases)) : i' = k /\ cs' = AllCases[k]) /\ Picked
+Next == PickChunk \/ PickCase \/ Step
 \* what an error trace of the M run shows: the case and the clauses that are to fail on it
 Shown == [i |-> i, st |-> st, cur |-> cur, blk |-> blk, quiet |-> quiet,
           key |-> IF i > 0 THEN C.key ELSE "", expect |-> IF i > 0 THEN C.expect ELSE {}]
